@@ -24,10 +24,10 @@ def drive(rng, tier):
     """generate a schedule adaptively by running the implementation; returns the case and the oracle's verdict"""
     prune = rng.random() < 0.5
     use_cache = rng.random() < 0.6
-    static = rng.random() < 0.3
+    static = rng.random() < 0.2
     long_pool = HX.make_long_pool(rng) if rng.random() < 0.15 else None
     w = WX.Walker(prune, use_cache)
-    writes, m = HX.gen_writes(rng, rng.randint(1, 8 if tier == "quick" else 16), long_pool)
+    writes, m = HX.gen_writes(rng, rng.randint(4, 12 if tier == "quick" else 20), long_pool)
     ops = [("trie", x) for x in writes]
     outs = [w.step(o) for o in ops]
     stable = dict(m)                 # keys whose value has not changed since the walk began
@@ -36,9 +36,12 @@ def drive(rng, tier):
     done = False
     while not done and stats["steps"] < MAX_STEPS:
         r = rng.random()
-        if not static and r < 0.22:
+        if not static and r < 0.3:
             # mutate
-            wr = HX.gen_write(rng, m.keys(), long_pool)
+            if m and rng.random() < 0.45:
+                wr = ("del", rng.choice(sorted(m)), "meth")      # collapses branches under explored prefixes
+            else:
+                wr = HX.gen_write(rng, m.keys(), long_pool)
             if rng.random() < 0.3:
                 op = ("trie", ("batch", [wr], None))
             else:
@@ -95,7 +98,7 @@ def check(tier, seed):
     R = C.Reporter("C09", tier, seed)
     R.gate = C.proof_gate("C09")
     rng = random.Random(seed)
-    n = 70 if tier == "quick" else 900
+    n = 90 if tier == "quick" else 900
     cases, outs_list = [], []
     for _ in range(n):
         case, outs, bad, stats, nstable = drive(rng, tier)
